@@ -276,6 +276,34 @@ def run(cx: Cx):
     else:
         cx.violation('R-SHARED', mod.name, 'module-library-is-a-fresh-TagLibrary', "the module-level library is not a TagLibrary() of its own",
                      where=mod.relpath)
+    # tag names are caller-chosen and the module's own code resolves every name it uses (enumerate, hasattr, type, its own functions)
+    # through the module globals first: nothing may bind names there at run time (a "cache" of resolved tags shadows them)
+    dyn = []
+    for n_ in ast.walk(mod.tree):
+        tgt = None
+        if isinstance(n_, (ast.Assign, ast.AugAssign, ast.Delete, ast.AnnAssign)):
+            tl = n_.targets if isinstance(n_, (ast.Assign, ast.Delete)) else [n_.target]
+            for t in tl:
+                for y in ast.walk(t):
+                    if isinstance(y, ast.Subscript) and isinstance(y.value, ast.Call) and isinstance(y.value.func, ast.Name) and \
+                            y.value.func.id in ('globals', 'vars', 'locals') and not y.value.args:
+                        tgt = y
+        if isinstance(n_, ast.Call) and isinstance(n_.func, ast.Attribute) and n_.func.attr in ('update', 'setdefault', 'pop', '__setitem__') and \
+                isinstance(n_.func.value, ast.Call) and isinstance(n_.func.value.func, ast.Name) and n_.func.value.func.id in ('globals', 'vars') \
+                and not n_.func.value.args:
+            tgt = n_
+        if isinstance(n_, ast.Call) and isinstance(n_.func, ast.Name) and n_.func.id in ('setattr', 'delattr') and n_.args and \
+                isinstance(n_.args[0], ast.Subscript) and 'modules' in ast.unparse(n_.args[0]):
+            tgt = n_
+        if tgt is not None:
+            dyn.append(tgt)
+    if dyn:
+        cx.violation('R-NS', mod.name, 'module-namespace-not-written-at-run-time',
+                     f"{mod.relpath}:{dyn[0].lineno} binds a name in the module's globals at run time ({ast.unparse(dyn[0])[:80]}): a tag "
+                     f"called like a builtin or a function the module itself uses (enumerate, hasattr, type, add_tag) then replaces it for "
+                     f"every library in the process", where=f"{mod.relpath}:{dyn[0].lineno}")
+    else:
+        cx.ok('R-NS', 'no code binds names in the module globals at run time', where=mod.relpath, function=mod.name)
 
 
 def _rejects_class_names(cond, self_s, name) -> bool:
